@@ -133,3 +133,100 @@ class MsgNotCompleted(MsgCompleted):
     def ensures(self, cx, ex):
         v = ex.value
         return [('C07.a_message_other_than_a_running_order_is_never_completed', z3.Not(v.t) if isinstance(v, SBool) else z3.BoolVal(False))]
+
+
+# ------------------------------------------------------------------ delegating accessors and reader getters
+def _slug_of(cx, root, base_tag):
+    b = cx.H.find(root, cx.W.lit(base_tag))
+    return b, cx.H.find(b, cx.W.lit('roSlug'))
+
+
+class SlugProp(MsgCompleted):
+    """ro_slug of a running order / roMetadataReplace: the text of the roSlug of the message element"""
+    props = ('C15', 'C20')
+    cls_name = 'RunningOrder'
+    base_tag = 'roCreate'
+
+    def entry(self, E):
+        st = State(L.Heap(0, 0), z3.IntVal(0))
+        root = E.W.fresh('root', Node)
+        (st, o), = [r for r in E.instantiate(E.repo.cls(self.cls_name), [SNode(root)], {}, st) if not isinstance(r[1], Raised)][:1]
+        return st, {'self': o}
+
+    def ensures(self, cx, ex):
+        root = cx.st.fields(cx.a['self'])['_xml'].t
+        b, s = _slug_of(cx, root, self.base_tag)
+        v = ex.value
+        vt = none_s if isinstance(v, SNone) else (v.t if isinstance(v, SStr) else None)
+        return [('C15+C20.ro_slug_is_the_text_of_the_roSlug_of_the_message_element',
+                 A(b != null, s != null, vt == text(s)) if vt is not None else z3.BoolVal(False))]
+
+    def raises(self, cx, ex):
+        root = cx.st.fields(cx.a['self'])['_xml'].t
+        b, s = _slug_of(cx, root, self.base_tag)
+        return [('C15.ro_slug_raises_only_without_a_roSlug[%s]' % ex.value.name(), z3.Or(b == null, s == null))]
+
+
+@contract('mosromgr.mostypes.RunningOrder.ro_slug')
+class ROSlug(SlugProp):
+    pass
+
+
+@contract('mosromgr.mostypes.MetaDataReplace.ro_slug')
+class MDRSlug(SlugProp):
+    cls_name = 'MetaDataReplace'
+    base_tag = 'roMetadataReplace'
+
+
+@contract('mosromgr.moscollection.MosCollection.ro_slug')
+class CollSlug(CollProp):
+    def ensures(self, cx, ex):
+        b, s = _slug_of(cx, self.root(cx), 'roCreate')
+        v = ex.value
+        vt = none_s if isinstance(v, SNone) else (v.t if isinstance(v, SStr) else None)
+        return [('C09.collection_ro_slug_is_that_of_its_running_order', A(b != null, s != null, vt == text(s)) if vt is not None else z3.BoolVal(False))]
+
+    def raises(self, cx, ex):
+        b, s = _slug_of(cx, self.root(cx), 'roCreate')
+        return [('C09.collection_ro_slug_raises_only_without_a_roSlug[%s]' % ex.value.name(), z3.Or(b == null, s == null))]
+
+
+@contract('mosromgr.moscollection.MosCollection.ro_id')
+class CollRoId(CollProp):
+    def ensures(self, cx, ex):
+        b = cx.H.find(self.root(cx), cx.W.lit('roCreate'))
+        r = cx.H.find(b, cx.W.lit('roID'))
+        v = ex.value
+        vt = none_s if isinstance(v, SNone) else (v.t if isinstance(v, SStr) else None)
+        return [('C09.collection_ro_id_is_that_of_its_running_order', A(b != null, r != null, vt == text(r)) if vt is not None else z3.BoolVal(False))]
+
+    def raises(self, cx, ex):
+        b = cx.H.find(self.root(cx), cx.W.lit('roCreate'))
+        return [('C09.collection_ro_id_raises_only_without_a_roID[%s]' % ex.value.name(), z3.Or(b == null, cx.H.find(b, cx.W.lit('roID')) == null))]
+
+
+class ReaderGetter(Contract):
+    """MosReader.message_id / ro_id / mos_type return what the reader recorded when it was built (C18: readers are faithful)"""
+    opaque = False
+    props = ('C18', 'C10')
+    field = None
+
+    def entry(self, E):
+        st = State(L.Heap(0, 0), z3.IntVal(0))
+        k = E.W.fresh('k', L.I)
+        return st, {'self': reader_obj(E, k)}
+
+    def ensures(self, cx, ex):
+        want = cx.st.fields(cx.a['self'])[self.field]
+        v = ex.value
+        same = type(v) is type(want) and hasattr(v, 't') and z3.eq(v.t, want.t)
+        return [('C18.reader_%s_is_the_recorded_value' % self.field.strip('_'), z3.BoolVal(bool(same)))]
+
+    def raises(self, cx, ex):
+        return [('C18.reader_getter_never_raises[%s]' % ex.value.name(), z3.BoolVal(False))]
+
+
+for _f in ('message_id', 'ro_id', 'mos_type'):
+    _c = type('Reader_' + _f, (ReaderGetter,), {'field': '_' + _f})()
+    _c.qualname = 'mosromgr.moscollection.MosReader.' + _f
+    REGISTRY[_c.qualname] = _c
